@@ -104,7 +104,7 @@ def plist(xs):
     return "[" + "; ".join("(%d%%N, %s)" % (a, nlist(b) if isinstance(b, list) else "%d%%N" % b) for a, b in xs) + "]"
 
 
-def escape_tables():
+def escape_tables_strict():
     src = _read("brush-core/src/escape.rs")
     exp = _read("brush-core/src/expansion.rs")
 
@@ -210,6 +210,21 @@ Definition dq_reader_escapes : list N := %s.
 """ % (nlist(ne), "true" if positional else "false", nlist(dq), plist(named), plist(dec_both), plist(dec_ansic),
        zero_echo, zero_ansic, nlist(dqe))
     return regen.write_if_changed("C13EscapeTables.v", out)
+
+
+def escape_tables():
+    """An unrecognised shape is a broken tie, not a machinery failure: the regenerated file then does not compile, so
+    every theorem over the tables counts as broken and the check goes on to the failing-input search on the code."""
+    try:
+        return escape_tables_strict()
+    except core.CheckBroken as e:
+        reason = str(e).replace("*)", "* )").replace("(*", "( *").replace('"', "'")
+        stub = ("(** GENERATED: the translator does not recognise the Rust source any more. *)\n"
+                "(* %s *)\n"
+                "Definition translator_shape_error : True := the_rust_source_no_longer_has_the_shape_the_model_was_built_for.\n" % reason)
+        regen.write_if_changed("C13EscapeTables.v", stub)
+        core.log("translator: " + str(e))
+        return True
 
 
 EXTRACTORS = {"c13_escape": escape_tables}
